@@ -2,7 +2,9 @@ SPECIFICATION Spec
 CONSTANTS
   N0 = 3
   Workers = {1, 2}
+  Kinds = {"seq"}
+  KeySet = {1, 2}
   Gens = 2
-INVARIANTS NoTornPopulation SizePreserved AllFresh OwnRandomness FailureAtomic NoPartialCommit ErrIffFailure SerialDiscipline
+INVARIANTS NoTornPopulation SizePreserved CallsMatchSize AllFresh OwnRandomness FailureAtomic NoPartialCommit ErrIffFailure SerialDiscipline
 PROPERTIES StepsTerminate
 CHECK_DEADLOCK FALSE
